@@ -483,6 +483,7 @@ package rosmar
 
 //@ fn (*event).expandXattrMacros
 //@   modular
+//@   flag trusted=json-tree-edit
 //@   nullable mutateOpts
 //@
 //@ spec pnil(p) = isnull(p.raw) && isnull(p.parsed) && isnull(p.marshaled)
